@@ -25,8 +25,7 @@ package prober
 //@   ensures [C18.t4t7-trailer-second] len(headers[serverTimingKey]) == 0 && len(trailers[serverTimingKey]) > 0 ==> serverTiming == trailers[serverTimingKey]
 //@   ensures [C18.t4t7-absent] len(headers[serverTimingKey]) == 0 && len(trailers[serverTimingKey]) == 0 ==> $ret1 != nil
 //@   ensures [C18.t4t7-first-entry] $ret1 == nil ==> 0 <= $i && $i < len(serverTiming) && hasprefix(serverTiming[$i], gfeT4T7prefix) && firstGfe(serverTiming, $i)
-//@   ensures [C18.t4t7-value] $ret1 == nil && -9223372036854 <= intval(trimprefix(serverTiming[$i], gfeT4T7prefix)) && intval(trimprefix(serverTiming[$i], gfeT4T7prefix)) <= 9223372036854 ==> $ret0 == intval(trimprefix(serverTiming[$i], gfeT4T7prefix)) * 1000000
-//@   ensures [C18.t4t7-value@overflow] $ret1 == nil ==> $ret0 == intval(trimprefix(serverTiming[$i], gfeT4T7prefix)) * 1000000
+//@   ensures [C18.t4t7-value] $ret1 == nil ==> $ret0 == intval(trimprefix(serverTiming[$i], gfeT4T7prefix)) * 1000000
 //@   ensures [C18.t4t7-none] $ret1 != nil || (exists j, x in serverTiming :: hasprefix(x, gfeT4T7prefix))
 //@   loop 1 invariant firstGfe(serverTiming, $i + 1)
 
@@ -43,8 +42,11 @@ package prober
 //@ func ParseProbeType
 //@   ensures [C18.probe-type] ($ret1 == nil) == probeTypeValid(t)
 
+// The prober is built by NewProber from ProberOptions that main fills from the validated flags (main.go: QPS: *qps,
+// proberlib.go: qps: opt.QPS); NewProber and main construct Spanner and Stackdriver clients and are outside the verifier's reach.
+//@ typeinv Prober := this.qps >= 0.000000001 && this.qps <= 1000.0
+//@ assumption [C18] Prober.qps is a copy of the validated --qps flag (copy-through in main and NewProber is not verified; the type invariant of Prober is assumed, not established)
 //@ func (p *Prober) probeInterval
-//@   requires [C18.assume-validated-qps] p.qps >= 0.000000001 && p.qps <= 1000.0
 //@   ensures [C18.interval-positive] result > 0
 
 //@ autotagfn term backoff C18
